@@ -39,7 +39,7 @@ prop(
     quick={"runs": 12000},
     thorough={"runs": 100000000, "budget_s": 600},
     rule="Scenarios (2-8 clients x 1-4 Gets on 1-3 keys, initial entry state absent/fresh/stale/too-stale per key, "
-         "random FailoverConfig, builder scripts, backend kind, API flavour) are drawn from the seeded PRNG and executed "
+         "random FailoverConfig, builder scripts, backend kind, API flavour; in a quarter of the scenarios callers cancel, rewrite their key slice with another key or re-use one key buffer after Get returned, everywhere else the private key slice is overwritten after return) are drawn from the seeded PRNG and executed "
          "under random / PCT / mostly-sequential schedules at call-out and lock granularity. A run is non-trivial when at "
          "least two Gets of different clients on the same key overlapped in event-sequence time; distinct = distinct "
          "(scenario, schedule signature) among those, the schedule signature being the hash of the sequence of (task, yield label).",
